@@ -604,7 +604,7 @@ func TestC01(t *testing.T) {
 func TestC02(t *testing.T) {
 	installWedge(t, "C02")
 	p := &profile{prop: "C02", minKeys: 1, maxKeys: 2, methods: []string{"GET", "GET", "HEAD"}, upstreamEnc: true, reloadW: 3, cancelW: 5, twins: true,
-		stores: []string{"", "", "mem"}, cacheSizes: []int{1000, 1000, 100, 1001, 2000}, hfps: []int{0, 1, 2}, proxyTimeouts: []int{0, 1000, 3000, 10000},
+		stores: []string{"", "", "mem"}, cacheSizes: []int{1000, 1000, 100, 1001, 2000}, hfps: []int{0, 1, 2}, proxyTimeouts: []int{0, 1000, 3000, 10000, 500, 1500, 250},
 		lifetimes: []int{1, 2, 5}, outcomes: allOutcomes,
 		parkPct: 35, w: [6]int{40, 25, 12, 12, 5, 0}, minOps: 4, maxOps: 40,
 		macros: []string{"burst", "registeredPark", "timeout", "purgeRace", "wokenExpiry"}, macroPct: 12,
